@@ -394,7 +394,7 @@ def stream_call(rng, tbits, cls, oid='a'):
         c.update(op=rng.choice(['readtok', 'readtok', 'peektok']), sa=[name, str(rng.randint(0, 2))], ia=[ln])
     elif r < 0.58:
         c.update(op=rng.choice(['readlistbits', 'peeklistbits']),
-                 ia=[rng.choice([0, 1, 2, 3, 8]) for _ in range(rng.randint(0, 4))])
+                 ia=[rng.choice([0, 1, 2, 3, 8, 8, 1, -1]) for _ in range(rng.randint(0, 4))])
     elif r < 0.66:
         c.update(op='readto', xs=[related_operand(rng, tbits, oid, allow_self=False)], ia=[opt_ba(rng)])
     elif r < 0.8:
